@@ -373,4 +373,92 @@ theorem batchsafe_commutes (cfg : Cfg) (st : Step) (s : List Inter) (k : Nat) (k
        | .ok s' => .ok { stream := s', sizes := some (chunkSizes k s'.length s'.length) }) :=
   batchsafe_commutes' cfg st s k ks hb hu
 
+/-! ## Phase 4 -/
+
+/-! ### Noise end to end for scalar actions: no run-time-evaluated hypothesis left -/
+
+/-- **Noise on numeric actions (repaired code), end to end.**  For every context noiser, every action noiser that cannot merge
+two numbers (`injNoiser`: none, or `x ↦ mul·x + add` with `mul ≠ 0`), every generator state and every stream meeting the
+explicit decidable preconditions `noiseScalarHypB` (all about the *input*): after `Noise` the i-th action earns what the i-th
+action earned before (rewards and IGL feedbacks, list or function) and the logged action is the same member.  This is
+`noise_plans_explicit` ∘ `noise_affine_nums_distinct` ∘ `plan_aligned`, with `chainHypB` discharged. -/
+theorem noise_scalar_aligned (nc na : Option NoiseSpec) (orc : List Rat) (s s' : List Inter)
+    (hinj : injNoiser na = true) (hh : noiseScalarHypB s = true)
+    (hrun : runPrim Cfg.fixed (.noise nc na orc) s = .ok s') : alignedStreamB s s' = true :=
+  noise_scalar_aligned' nc na orc s s' hinj hh hrun
+
+example : injNoiser (some (.affine 2 1)) = true ∧ noiseScalarHypB (wRekey ++ wNoiseLogged ++ wNoiseFeedbacks) = false
+    ∧ noiseScalarHypB wNoiseLogged = true ∧ noiseScalarHypB (wRekey ++ wRekey) = true
+    ∧ keepsAligned Cfg.fixed [.noise none (some (.affine 2 1)) []] (wRekey ++ wRekey) = true := by decide +kernel
+
+/-- the noiser's injectivity cannot be dropped: slope 0 meets every other precondition and misaligns (`noise_collision_counterexample`) -/
+theorem noise_scalar_counterexample :
+    injNoiser (some (.affine 0 5)) = false ∧ noiseScalarHypB wRekey = true
+    ∧ keepsAligned Cfg.fixed [.noise none (some (.affine 0 5)) []] wRekey = false := by decide +kernel
+
+/-- an injective noiser keeps every set of numbers a set (no noise, or affine with non-zero slope), for every generator state -/
+theorem noise_injective_nums_distinct (na : Option NoiseSpec) (hinj : injNoiser na = true) (orc o' : List Rat) (as out : List Val)
+    (hnum : as.all isNum = true) (hd : Distinct as) (h : noisesList na orc as = .ok (o', out)) : Distinct out :=
+  injNoiser_nums_distinct na hinj orc o' as out hnum hd h
+
+/-! ### Cycle, negatively -/
+
+/-- **Cycle changes which action earns which reward, by design**: whenever the rotation `l[-1%n:] + l[:-1%n]` (`cycle_shift`:
+the j-th action gets what action `cycleSource n j = (j-1) mod n` earned) moves anything, the observable after Cycle differs from
+the one before.  The property's statement lists the representation filters and leaves Cycle out; in the model a rotating Cycle
+step is outside `chainHypB` (`cycle_outside_hyp`). -/
+theorem cycle_misaligns {n : Nat} {r r' : Rew} {acts : List Val} (vals : List Rat)
+    (h : rekey (.rotate n) r acts acts = .ok r') (hd : Distinct acts)
+    (hv : obsOf r acts = vals.map Except.ok) (hne : rotList n vals ≠ vals) :
+    obsEq (obsOf r acts) (obsOf r' acts) = false := cycle_misaligns' vals h hd hv hne
+
+theorem cycle_outside_hyp (n : Nat) (r : Rew) (o nw : List Val) : targetHypB (.rotate n) (some r) o nw = false :=
+  cycle_outside_hyp' n r o nw
+
+theorem cycle_source {α} (l : List α) (hl : 0 < l.length) (j : Nat) (hj : j < l.length) :
+    (rotList l.length l)[j]? = l[cycleSource l.length j]? := cycle_source_getElem? l hl j hj
+
+/-- witness: three string actions with rewards `[1,2,3]` come out as `[3,1,2]` -/
+theorem cycle_counterexample : keepsAligned Cfg.fixed [.cycle 0] wCycle = false
+    ∧ (match runChain Cfg.fixed [.cycle 0] { stream := wCycle } with
+       | .ok S => (match S.stream with
+                   | [J] => optObsEq (obsRewards J) (some [.ok 3, .ok 1, .ok 2])
+                   | _ => false)
+       | .error _ => false) = true := by decide +kernel
+
+/-! ### Python `==` as an equivalence -/
+
+/-- `==` is transitive on every value built from numbers, strings, categoricals, lists, tuples and dicts with unique keys
+(with `pyEq_refl`: a pre-order; with `pyEq_symm` an equivalence on the dense fragment) -/
+theorem pyEq_trans (a b c : Val) (ha : wfNoLazy a = true) (hb : wfNoLazy b = true) (hc : wfNoLazy c = true)
+    (h1 : pyEq a b = true) (h2 : pyEq b c = true) : pyEq a c = true := pyEq_trans_wf a b c ha hb hc h1 h2
+
+example : wfNoLazy (.dict [("a", catA), ("b", .list [.num 1])]) = true
+    ∧ pyEq (.dict [("a", catA), ("b", .list [.num 1])]) (.dict [("b", .list [.num 1]), ("a", .str "a")]) = true := by decide +kernel
+
+/-- where Python's `==` stops being an equivalence inside coba's value domain: a SparseDense row equals both the list and the
+tuple with its elements, which are different from each other (the other place is `nan != nan`, which the rational-valued model
+and the generator exclude) -/
+theorem pyEq_not_transitive_counterexample :
+    pyEq wEqNotTrans.1 wEqNotTrans.2.1 = true ∧ pyEq wEqNotTrans.2.1 wEqNotTrans.2.2 = true ∧ pyEq wEqNotTrans.1 wEqNotTrans.2.2 = false :=
+  pyEq_not_transitive_lazy'
+
+/-! ### translator tie: constants extracted from the source under test equal the ones the model uses -/
+
+/-- `Generated/C10Consts.lean` is rewritten from `coba/environments/filters.py` on every run (Finalize's `Repr("onehot","onehot")`,
+Sparsify's default headers, the seed of Densify's slot generator, Cycle's `l[-1%n:] + l[:-1%n]` and `i >= after`) -/
+theorem source_constants_match :
+    Coba.Generated.C10.finalizeReprModes = finalizeReprModes ∧ Coba.Generated.C10.sparsifyHeaders = sparsifyHeaders ∧
+    Coba.Generated.C10.densifySeed = densifySeed ∧ Coba.Generated.C10.cycleShifts = [cycleShift, cycleShift] ∧
+    Coba.Generated.C10.cycleAfterInclusive = cycleRotatesAt 0 0 := source_constants_match'
+
+/-- … and those named constants are the ones the model's filters really use -/
+theorem model_uses_constants (n : Nat) :
+    initDState n = { table := [], fresh := lookupStream n (if n == 0 then 0 else 192 / n + 2) (Coba.C05.normInt densifySeed) }
+    ∧ (∀ (l : List Nat), rotList n l = if n == 0 then l else l.drop (n - cycleShift) ++ l.take (n - cycleShift))
+    ∧ (match cyclePlans 1 (wCycle ++ wCycle ++ wCycle) with
+       | .ok ps => ps.map (fun p => p.polR == .rotate 3)
+       | .error _ => []) = [cycleRotatesAt 1 0, cycleRotatesAt 1 1, cycleRotatesAt 1 2] :=
+  ⟨initDState_seed n, fun l => rotList_shift n l, cycle_after_used⟩
+
 end Coba.C10
